@@ -186,4 +186,61 @@ def DS.pending : DS → List Ev
   | .fin _ => []
   | _ => [.readBlocked]
 
+/-! ### histories: the same `Terminal` objects used again and again
+
+Several terminals, each with the script of AL status answers it will still give; a history is a
+list of uses (`to_operational`, `set_state`, `get_state`) of the terminals' `Terminal` objects, one
+after the other.  The `Terminal` object keeps nothing between uses: a use consumes answers from
+its own terminal's script and leaves the rest for the next use of that terminal. -/
+
+inductive Op where
+  | toOp (target : Nat)     -- `await t.to_operational(target)`
+  | setState (v : Nat)      -- `await t.set_state(v)`: one FPWR 0x120
+  | getState                -- `await t.get_state()`: one FPRD 0x130
+deriving Repr, DecidableEq
+
+/-- one use of a fresh-or-not `Terminal` object, on the answers its terminal gives from now on -/
+def runOp : Op → List Resp → List Ev × Outcome
+  | .toOp target, rs => toOperational target rs
+  | .setState v, _ => ([.write v], .fellOff)
+  | .getState, [] => ([.readBlocked], .blocked)
+  | .getState, r :: _ => ([.read r], if valid r.state then .returned else .valueError)
+
+/-- how many answers a use has taken from the script -/
+def consumed (evs : List Ev) : Nat := (reads evs).length
+
+/-- the uses of one terminal, one after the other, on its script -/
+def hist1 : List Resp → List Op → List (List Ev × Outcome)
+  | _, [] => []
+  | rs, op :: ops =>
+    let p := runOp op rs
+    p :: hist1 (rs.drop (consumed p.1)) ops
+
+/-- the script left after the uses -/
+def rest1 : List Resp → List Op → List Resp
+  | rs, [] => rs
+  | rs, op :: ops => rest1 (rs.drop (consumed (runOp op rs).1)) ops
+
+structure HOp where
+  term : Nat
+  op : Op
+deriving Repr, DecidableEq
+
+def scriptOf (scripts : List (List Resp)) (t : Nat) : List Resp := (scripts[t]?).getD []
+
+/-- uses of several terminals in any order; the result of each is tagged with its terminal -/
+def histRun : List (List Resp) → List HOp → List (Nat × (List Ev × Outcome))
+  | _, [] => []
+  | scripts, h :: hs =>
+    let rs := scriptOf scripts h.term
+    let p := runOp h.op rs
+    (h.term, p) :: histRun (scripts.set h.term (rs.drop (consumed p.1))) hs
+
+/-- the results of the uses of terminal `t` -/
+def projH (t : Nat) (res : List (Nat × (List Ev × Outcome))) : List (List Ev × Outcome) :=
+  (res.filter (fun e => e.1 == t)).map (·.2)
+
+/-- the uses of terminal `t` in a history -/
+def opsOf (t : Nat) (ops : List HOp) : List Op := (ops.filter (fun h => h.term == t)).map (·.op)
+
 end Ebv.AlDriver
